@@ -51,10 +51,10 @@ class merge_to_number:
     a heap loop (see DESIGN C15)."""
     bounded_only = True
     params = {"desired_chunks": "seq", "max_number": "int"}
-    scope = "all chunkings of lengths <= 8 (quick) / 11 (thorough) without zero chunks, uniform tuples up to 40 blocks, max_number 1..15"
+    scope = "all chunkings of lengths <= 8 (quick) / 11 (thorough), with zero chunks up to length 6 / 8, uniform tuples up to 40 blocks, max_number 1..15"
 
     def requires(desired_chunks, max_number):
-        return max_number >= 1 and len(desired_chunks) >= 1 and all(c >= 1 for c in desired_chunks)
+        return max_number >= 1 and len(desired_chunks) >= 1 and all(c >= 0 for c in desired_chunks)
 
     def ensures(result, desired_chunks, max_number):
         def bounds(t):
@@ -67,7 +67,8 @@ class merge_to_number:
             "sum": sum(result) == sum(desired_chunks),
             "count": len(result) <= max(max_number, 1) or len(desired_chunks) <= max_number,
             "coarsening": bounds(result) <= bounds(desired_chunks),
-            "positive": all(c >= 1 for c in result),
+            "positive": all(c >= 1 for c in result) or not all(c >= 1 for c in desired_chunks),
+            "non-negative": all(c >= 0 for c in result),
             "unchanged-when-few": len(desired_chunks) > max_number or tuple(result) == tuple(desired_chunks),
         }
 
@@ -82,6 +83,12 @@ class merge_to_number:
                 continue
             for m in range(1, len(c) + 2):
                 yield {"desired_chunks": c, "max_number": m}
+        # layouts with zero-width chunks (they arise from explicit chunk tuples and from data-dependent selections)
+        for n, c in chunkings(6 if tier == "quick" else 8, zero=True):
+            if c and 0 in c:
+                for m in range(1, len(c) + 1):
+                    yield {"desired_chunks": c, "max_number": m}
+        yield {"desired_chunks": (0, 1, 1, 1), "max_number": 2}
 
 
 def _prefix(t):
@@ -195,6 +202,13 @@ class plan_rechunk:
                     for cfg in (cfgs if tier != "quick" else rng.sample(cfgs, 4)):
                         yield {"old_chunks": (a,), "new_chunks": (b,), "itemsize": cfg[0], "threshold": cfg[1],
                                "block_size_limit": cfg[2], "degree_limit": cfg[3]}
+        # zero-width chunks in the old layout, small degree limits (the degree pass merges the finer endpoint)
+        zs = [c for n, c in chunkings(4, zero=True) if c and 0 in c and n == 3]
+        for a in zs:
+            for b in by_n[3]:
+                for d in (2, 4, 100):
+                    yield {"old_chunks": (a,), "new_chunks": (b,), "itemsize": 8, "threshold": 4, "block_size_limit": 1000, "degree_limit": d}
+                    yield {"old_chunks": (b,), "new_chunks": (a,), "itemsize": 8, "threshold": 4, "block_size_limit": 1000, "degree_limit": d}
         two = [(a, b) for n in (3, 4, 6) for a in by_n[n] for b in by_n[n]]
         count = 3000 if tier == "quick" else 60000
         for _ in range(count):
